@@ -294,6 +294,19 @@ func checkC03(c *Check) {
 		openK := l.constVal("x/escrow/types", "PaymentOpen").ExactString()
 		ok := false
 		eachInstr(fn, func(i ssa.Instruction) {
+			// kept by index in a slice made for the result: every such store is behind the filter
+			if st, isSt := i.(*ssa.Store); isSt {
+				if ia, isIA := st.Addr.(*ssa.IndexAddr); isIA {
+					if _, isMk := ia.X.(*ssa.MakeSlice); isMk && strings.HasSuffix(ia.X.Type().String(), "types.Payment") {
+						for _, a := range factsAt(st.Block()) {
+							if a.Op == "eq" && strings.HasSuffix(Sym(a.X), ".State") && Sym(a.Y) == openK {
+								ok = true
+							}
+						}
+					}
+				}
+				return
+			}
 			call, isC := i.(*ssa.Call)
 			if !isC || calleeFull(call) != "builtin.append" {
 				return
